@@ -21,11 +21,11 @@ LEVEL = "exploration"
 OBJ_CLASSES = ["Cuboid", "Cylinder", "Sphere", "Tetrahedron", "TriangularMesh", "Triangle", "Circle", "Polyline",
                "Dipole", "Sensor", "Collection", "CustomSource", "CylinderSegment"]
 OBJ_NOTATIONS = ["magic_update", "nested_update", "attr", "assign_dict", "assign_magic_dict", "mixed_update",
-                 "magic_then_dict", "attr_dict", "str_shortcut"]
+                 "magic_then_dict", "attr_dict", "str_shortcut", "partial_magic"]
 CTOR_NOTATIONS = ["ctor_magic", "ctor_dict", "ctor_mixed"]
 DEF_NOTATIONS = ["fam_update", "style_update_nested", "style_update_magic", "attr", "display_update",
                  "fam_mixed_update", "fam_attr_dict", "fam_assign_dict", "defaults_update_nested",
-                 "defaults_update_magic"]
+                 "defaults_update_magic", "defaults_partial_magic"]
 
 
 def magic_then_dict_kwargs(items):
@@ -35,6 +35,35 @@ def magic_then_dict_kwargs(items):
     for top, val in nest_items(items[1:]).items():
         kw[top] = val
     return kw
+
+
+def partial_magic(items, prefix=""):
+    """one dictionary in which every leaf is written with its own split between underscore key and nested
+    dictionary: path_line_width=2 as {"path": {"line": {"width": 2}}}, {"path_line": {"width": 2}},
+    {"path": {"line_width": 2}} or {"path_line_width": 2}.  The split is a function of the item so that replay needs
+    nothing else; entries meeting under one key are merged by the caller (a dict cannot hold a key twice)."""
+    def put(d, keys, v):
+        if len(keys) == 1:
+            d[keys[0]] = v
+        else:
+            sub = d.get(keys[0])
+            if not isinstance(sub, dict):
+                sub = d[keys[0]] = {}
+            put(sub, keys[1:], v)
+
+    out = {}
+    for n, (leaf, v) in enumerate(items):
+        parts = (prefix + leaf).split("_")
+        # choose which of the len(parts)-1 gaps are "_" (joined) and which are nesting levels
+        mask = (len(leaf) * 7 + n * 3 + len(parts)) % (1 << (len(parts) - 1))
+        keys = [parts[0]]
+        for g, p in enumerate(parts[1:]):
+            if mask >> g & 1:
+                keys[-1] += "_" + p
+            else:
+                keys.append(p)
+        put(out, keys, own(v, leaf))
+    return out
 
 
 def assign_sub_dicts(target, items):
@@ -320,6 +349,13 @@ class C20Session(Session):
             if d != keep:
                 raise Violation("caller_dict_mutated", "style.update(dict, **kwargs) changed the caller's dict",
                                 op="obj_set", notation=notation)
+        elif notation == "partial_magic":
+            d = partial_magic(items)
+            keep = copy.deepcopy(d)
+            o.style.update(d)
+            if d != keep:
+                raise Violation("caller_dict_mutated", "style.update(dict) changed the caller's dict", op="obj_set",
+                                notation=notation)
         elif notation == "magic_then_dict":
             o.style.update(**magic_then_dict_kwargs(items))
         elif notation == "attr_dict":
@@ -395,6 +431,9 @@ class C20Session(Session):
             magpy.defaults.update(display={"style": {fam: nest_items(items)}})
         elif notation == "defaults_update_magic":
             magpy.defaults.update(**{f"display_style_{fam}_{leaf}": own(v, leaf) for leaf, v in items})
+        elif notation == "defaults_partial_magic":
+            # every leaf with its own split between underscore key and nesting, from the top of the defaults tree
+            magpy.defaults.update(partial_magic(items, prefix=f"display_style_{fam}_"))
         elif notation == "fam_attr_dict":
             assign_sub_dicts(getattr(style, fam), items)
         elif notation == "fam_assign_dict":
@@ -850,7 +889,7 @@ class Sim:
     def _leaves(keys):
         return [k for k in keys if sm.kind_of(k) not in (None, "data")]
 
-    def _items(self, rng, cfg, leaves, prefer=()):
+    def _items(self, rng, cfg, leaves, prefer=(), none_ok=False):
         n = rng.choice([1, 1, 2, 3])
         items = []
         used = set()
@@ -873,6 +912,8 @@ class Sim:
             val = rng.choice(sm.VALID[sm.kind_of(leaf)])
             if sm.kind_of(leaf) == "color" and rng.random() < cfg.get("p_colorform", 0.0):
                 val = rng.choice(sm.COLOR_FORMS)[0]  # int tuple, float tuple, short name, upper-case hex, rgb()
+            if none_ok and leaf != "model3d_showdefault" and rng.random() < 0.12:  # showdefault is a strict bool
+                val = None  # un-setting a leaf: the next layer shows through again
             items.append([leaf, val])
         # the deprecated alias and its target, written in either order across steps
         al = [x for x in leaves if sm.is_alias(x)]
@@ -967,7 +1008,7 @@ class Sim:
             o = rng.randrange(n)
             leaves = self._leaves(M.S[o]) + [k for k in ("magnetization_size",)
                                              if "magnetization_arrow_size" in M.S[o]]
-            items = self._items(rng, cfg, leaves, prefer=[k for k, v in M.S[o].items() if v is not None])
+            items = self._items(rng, cfg, leaves, prefer=[k for k, v in M.S[o].items() if v is not None], none_ok=True)
             notation = rng.choice(cfg["obj_notations"])
             if notation == "str_shortcut":
                 tl = rng.choice(["description_text", "legend_text"])
@@ -996,7 +1037,7 @@ class Sim:
             if fam in ("magnet", "triangle"):
                 leaves = leaves + ["magnetization_size"]
             # aim at leaves that objects have not set themselves and at ones they have
-            items = self._items(rng, cfg, leaves, prefer=[k for k in written_obj if k in leaves])
+            items = self._items(rng, cfg, leaves, prefer=[k for k in written_obj if k in leaves], none_ok=True)
             op = {"op": "def_set", "fam": fam, "notation": rng.choice(cfg["def_notations"]), "items": items}
             if cfg["invalid"]:
                 op["invalid"] = self._invalid(rng, items, self._leaves(fl))
